@@ -624,6 +624,12 @@ pub fn gen_long_entries(rng: &mut Prng) -> Vec<Entry> {
 /// sharing such a prefix, values of 64 KiB and more (compressible ones give multi-chunk Snappy
 /// blocks), next to ordinary short entries
 pub fn gen_huge_entries(rng: &mut Prng) -> Vec<Entry> {
+    if rng.chance(1, 4) {
+        // a table of more than 2 MiB: block offsets pass 2^21, the handles of the later blocks need
+        // four-byte varints (and the file offset passes 2^21 in the footer's index handle)
+        let n = rng.range(11, 14);
+        return (0..n).map(|i| (format!("big-{i:02}").into_bytes(), 40 + i, 1u8, rng.bytes(200_000))).collect();
+    }
     let klen = *rng.pick(&[65_527usize, 65_528, 65_535, 65_536, 66_000, 70_000, 131_073]);
     let fill = rng.range(98, 121) as u8;
     let mut keys: Vec<Vec<u8>> = vec![b"apple".to_vec(), b"zebra".to_vec(), vec![fill; klen]];
@@ -672,6 +678,9 @@ fn job(j: &Job, drv: &mut Drv, rep: &mut Report) {
         Job::Huge(c) => {
             let _ = drv;
             rep.count("c13.huge-tables-checked-against-the-oracles-only");
+            if c.entries.first().map_or(false, |e| e.0.starts_with(b"big-")) {
+                rep.count("c13.huge-tables-over-2-mib");
+            }
             run_case(c, &mut Drv::spawn("none"), rep)
         }
         Job::Small(seed, n) => run_small(*seed, drv, rep, *n),
@@ -679,7 +688,7 @@ fn job(j: &Job, drv: &mut Drv, rep: &mut Report) {
 }
 
 pub fn rule() -> &'static str {
-    "(1) key/byte separators and successors on generated key pairs (shared prefixes, adjacent bytes, 0xff runs); (2) blocks with restart intervals 1,2,3,16; (3) tables built by the real TableBuilder on SimFs from generated sorted entry sets (empty/one-byte/0xff keys, shared prefixes, many versions per key, tombstones, values empty..multi-block; plus long tables of 150-700 keys with incompressible values spanning many 2 KiB filter ranges; plus tables with a user key of 65 527 .. 131 073 bytes - internal keys at and beyond 2^16 -, two keys sharing such a prefix, values of 16 383 .. 150 000 bytes) x max_block_size 16 B..1 MiB x Bloom bits 1..64: dump vs model, lookups at every (key, bound) around every entry, random cursor programs with reversals; (4) the table's filter block. Non-trivial = at least two entries / distinct keys; distinct by case text."
+    "(1) key/byte separators and successors on generated key pairs (shared prefixes, adjacent bytes, 0xff runs); (2) blocks with restart intervals 1,2,3,16; (3) tables built by the real TableBuilder on SimFs from generated sorted entry sets (empty/one-byte/0xff keys, shared prefixes, many versions per key, tombstones, values empty..multi-block; plus long tables of 150-700 keys with incompressible values spanning many 2 KiB filter ranges; plus tables with a user key of 65 527 .. 131 073 bytes - internal keys at and beyond 2^16 -, two keys sharing such a prefix, values of 16 383 .. 200 000 bytes, tables of more than 2 MiB whose block offsets pass 2^21) x max_block_size 16 B..1 MiB x Bloom bits 1..64: dump vs model, lookups at every (key, bound) around every entry, random cursor programs with reversals; (4) the table's filter block. Non-trivial = at least two entries / distinct keys; distinct by case text."
 }
 
 pub fn run(tier: &str, seed: u64, drv_path: &str, replay: Option<&str>, corpus: &str) -> Report {
